@@ -36,6 +36,41 @@ CHECKS = {
   text="Exploration: for every generated program (three generator profiles) and a fixed set of stressor programs (integer literals 65533-131071 next to every jumping construct, function bodies ending in operand byte 24, bodies padded to 65450-65600 bytes (thorough: 32 Ki, 128 Ki, 200 KB) before every jumping construct, 255-1000 (thorough 65535-65537) distinct constants and elements) the program the machine will run - main and every function, with and without optimizer, read through the hook - is checked by a structural verifier: known opcodes, complete operands, jump targets on instruction starts inside the body, constant references exist and are strings where names are required, function bodies return on all paths, and a min-stack-depth data-flow over ALL paths never drops below what an instruction pops. Executions must not end in the machine's internal errors, and padded programs must behave like their unpadded twins.",
   note="The verifier (harness/bcverify) is trusted; it assumes calls push one value (as the property allows). It is a predicate over generated programs, not a proof about the compiler. Known finding C18-valueless-operand (statement-like nodes accepted as operands) is outside the generated grammar by construction.",
   ref="DESIGN.md §3 C18"),
+ "C05": dict(
+  technique="property-based testing: exhaustive value x provenance x position table and random !/&&/|| nestings against the statement's truth function",
+  text="Exploration: every boundary value of every type (incl. empty/non-empty containers and regexps, negative and tiny numbers) reaches every truth-consuming position (if, while, ternary, both sides of && and ||, operand of !, the boolean returned by Run) through 7 provenances (literal, script variable, SetVariable with a fresh object, struct field, map field, built-in result, host-function result); all ordered pairs of values are combined under && and ||; random nestings of ! && || are checked in if/while/ternary/Run. The oracle is the single truth function of the property statement.",
+  note="Exhaustive only over the listed boundary values; provenances that cannot carry a value (e.g. a regexp in a host field) are skipped and counted.",
+  ref="DESIGN.md §3 C05"),
+ "C12": dict(
+  technique="property-based testing: exhaustive operator-pair table and random expression trees; round trip tree -> minimal/redundant/full parenthesisation -> parser shape, plus evaluation against the reference interpreter",
+  text="Exploration: all ordered pairs of the 18 infix operators, every prefix operator against every infix operator on both sides, prefix/infix against index, call and '.', ternary against every operator, each also with regrouping parentheses (exhaustive), and random trees to depth 5/6 printed with minimal parentheses according to the DOCUMENTED table, with random redundant parentheses and fully parenthesised: the repository parser must produce exactly the intended tree (compared through its printed shape) and the three printings must evaluate like the reference interpreter's value of the tree. Nested ternaries buried in arms through parentheses, call arguments, array elements, indexes and prefix/infix operands must be rejected by Prepare.",
+  note="The documented precedence table (property statement) is the oracle, not the parser's own table. A ternary in the condition of another is not asserted either way. Compound assignment operators are outside the documented order and not used inside expressions.",
+  ref="DESIGN.md §3 C12"),
+ "C13": dict(
+  technique="property-based testing / grammar-based fuzzing: invalid fragments x enclosing contexts (exhaustive to depth 2/3, random to depth 6) and token-boundary truncations; oracle: Prepare returns an error",
+  text="Exploration: ~90 invalid fragments are placed into every composition of 33 enclosing contexts (statement and expression holes) exhaustively to depth 2 (thorough 3) and randomly to depth 6; every context path is first validated to Prepare cleanly with a valid filler, so the script is invalid only through the fragment. In addition the repository's example scripts and generated programs are truncated at every token boundary where a bracket is still open. Prepare must return an error for each.",
+  note="Only the rejection direction is asserted here; acceptance of valid scripts is exercised by every other check. Context texts contain no quotes or slashes so that unterminated literals stay unterminated.",
+  ref="DESIGN.md §3 C13"),
+ "C14": dict(
+  technique="property-based testing: lexer round trips (text -> random valid spelling -> token/value), reference slash rule, layout metamorphism, termination on arbitrary bytes",
+  text="Exploration: six sub-checks - string literals (either quote style, all escapes, gratuitous escapes, backslash-newline continuations, any Unicode) denote exactly the text, as token and as executed value; regexp literals denote pattern and de-duplicated i/m flags as token, as executed value, and agree with the host regexp library when matched; integer and decimal spellings denote their strconv value; '/' is division or regexp start per the reference rule; re-rendering token soups and valid programs with random whitespace, newlines and // comments leaves the token stream (and program behaviour) unchanged; tokenisation of arbitrary byte strings ends within runes+2 tokens and 20 s.",
+  note="Scripts are valid UTF-8 without NUL wherever meaning is checked (NUL is the lexer's end marker); the 20 s bound is the subject of the termination clause, not an incidental time-out.",
+  ref="DESIGN.md §3 C14"),
+ "C15": dict(
+  technique="property-based testing: generated copy-then-mutate programs run 3 times on one evaluator against a value-semantics reference interpreter",
+  text="Exploration: programs copy a number (integer literals on both sides of 65534, floats, fields, SetVariable values) along random data-flow shapes (variable to variable, argument to parameter, array element, one literal to two variables, loop variable), apply ++ -- += -= *= /= to exactly one copy inside a 1-5 iteration loop, and report every copy plus the re-evaluated source; each program runs three times on one prepared evaluator and every run must match the reference interpreter (result, host calls, variables).",
+  note="Trusted: reference interpreter with value semantics. Only numbers can be mutated in place in this language, so strings and booleans appear as bystanders.",
+  ref="DESIGN.md §3 C15"),
+ "C16": dict(
+  technique="property-based testing: generated containers and accesses against the reference interpreter; validity predicate for hashes whose keys print alike",
+  text="Exploration: arrays (0-8 mixed/nested elements), strings with 1-4 byte runes, hashes with int/float/string keys, ranges (incl. a..a, negative, reversed) as literals, variables, SetVariable values and host fields are indexed from -3 to len+3 and with non-integer indexes, probed with 'in' for present and absent elements, measured with len/keys, printed, and iterated with and without index (observed through trace()); results must equal the reference interpreter's. Hashes with keys of different types that print alike are checked by a predicate: each entry visited exactly once, keys non-decreasing, every key found by type.",
+  note="Which of two duplicate hash keys wins is not asserted (C19 covers its determinism).",
+  ref="DESIGN.md §3 C16"),
+ "C17": dict(
+  technique="property-based testing: per built-in argument generators against README-derived reference implementations and in-language algebraic laws",
+  text="Exploration: each documented built-in is called with generated arguments (numbers with different digit counts, signs and int/float mixes; arrays of mixed values with the case flag; arbitrary strings and separators; every value type; instants from year 1 to 9999 in six time zones and with TZ unset, also as time.Time fields) passed as literals, variables or fields, and with every wrong arity 0-4 and wrong argument types; results must equal a reference implementation written from the README, the laws between(v,lo,hi)==(lo<=v&&v<=hi), min<=max and join(split(s,d),d)==s must hold inside the language, and sort/reverse must return an ordered permutation leaving their input unchanged.",
+  note="time/tzdata is linked into the harness so zones resolve offline; min/max of equal numbers of different type, and of non-numbers, are accepted either way. Behaviour the README does not fix (int() of a float, replace with an invalid pattern) is pinned and an error is accepted instead.",
+  ref="DESIGN.md §3 C17"),
 }
 
 def main():
